@@ -374,6 +374,13 @@ func runStep(n *exh.Node, s sstep) exh.Result {
 	case "cleartemp":
 		n.Chain.DataAccess().ClearTempBlocks()
 		return exh.Result{}
+	case "del_finalized":
+		fin, _ := n.Finalized()
+		b, err := n.Chain.DataAccess().GetBlockByHeight(fin)
+		if err != nil {
+			return exh.Result{Err: err}
+		}
+		return n.DeleteBlock(b, false)
 	default:
 		return n.DeleteBlock(n.Tip(), s.save)
 	}
@@ -471,6 +478,34 @@ func (p *planner) next(t int) sstep {
 		s.block = n.NextValid(exh.Build{By: by})
 		s.quiet = t <= p.stall
 		return s
+	case "scripted":
+		// a fixed plan that contains, BY CONSTRUCTION, at least one step of every kind the check claims to cover
+		switch t {
+		case 2:
+			return p.addStep(exh.Build{Txs: []*blockchain.Transaction{exh.MakeTx(4242, 9)}, Assets: []*blockchain.BlockAsset{{Module: "random", Data: []byte{1, 2}}}}, false)
+		case 7:
+			return p.addStep(exh.Build{}, true) // invalid block
+		case 8:
+			return sstep{kind: "del", save: false, script: &exh.Script{}}
+		case 9:
+			return sstep{kind: "del", save: true, script: &exh.Script{}}
+		case 10:
+			return sstep{kind: "cleartemp", script: &exh.Script{}}
+		case 11:
+			p.pending = append(p.pending, n.Tip())
+			return sstep{kind: "del", save: true, script: &exh.Script{}}
+		case 12:
+			b := p.pending[len(p.pending)-1]
+			p.pending = nil
+			return sstep{kind: "restore", block: b, script: p.scripts[hex.EncodeToString(b.Header.ID)]}
+		case 13:
+			return sstep{kind: "del_refused", script: &exh.Script{FailRevert: true}} // deleteBlock fails before anything is written
+		case 14:
+			return sstep{kind: "del_finalized", script: &exh.Script{}} // delete request for a finalized block: the guard refuses
+		case 15:
+			return sstep{kind: "cleartemp", script: &exh.Script{}} // nothing to clear: no write at all
+		}
+		return p.addStep(exh.Build{}, false)
 	case "jump":
 		// validator 0 (weight 1) forges a run, then validator 1 (weight 3) forges two blocks: prevotes then precommits for
 		// the whole run at once
@@ -530,13 +565,16 @@ func main() {
 		}
 	}()
 	families := []string{"big", "restore", "jump", "random"}
-	total := *scen
+	total := *scen + 1
 	if *stall > 0 {
 		total++
 	}
 	for sc := 0; sc < total; sc++ {
 		family := families[sc%len(families)]
 		if sc == *scen {
+			family = "scripted"
+		}
+		if sc == *scen+1 {
 			family = "stall"
 		}
 		opt := exh.Options{N: 1 + r.Intn(4)}
@@ -556,6 +594,9 @@ func main() {
 			opt.N, opt.Weights, opt.PreCommit, opt.Certificate = 2, []uint64{1, 3}, 3, 3
 			opt.KeepEvents, opt.KeepEventsSet = 1, true
 			nsteps = *stall + 4
+		case "scripted":
+			opt = exh.Options{N: 2} // two validators taking turns: finality follows the tip at a fixed distance
+			nsteps = 16
 		}
 		opt.NoInit = true
 		// ---- phase A: build the scenario on a counting FS, record the op log ----
